@@ -419,6 +419,22 @@ func splitField(s *an.PathState, t *an.Term) (splitFld, bool) {
 	// SplitN(x, sep, n)[i]
 	if t.Op == "load" && t.Args[0].Op == "indexaddr" {
 		ia := t.Args[0]
+		if sp, _ := ia.Args[0].CallOf(); sp != nil && ia.Args[0].Op == "call" && sp.Aux == "strings.Split" {
+			// Split(x, sep)[i] under len(parts) == n: field i of exactly n pieces
+			i, ok1 := ia.Args[1].ConstInt()
+			sep, ok3 := sepOf(sp.Args[1])
+			if ok1 && ok3 {
+				for _, a := range s.Atoms {
+					if a.Op == "==" && a.B != nil && a.A.IsCallTo("builtin len") {
+						if lc, _ := a.A.CallOf(); lc.Args[0].K == sp.K {
+							if n, ok := a.B.ConstInt(); ok && i < n {
+								return splitFld{Base: sp.Args[0].StripConv(), Sep: sep, Idx: int(i), N: int(n), Present: true}, true
+							}
+						}
+					}
+				}
+			}
+		}
 		if sp, _ := ia.Args[0].CallOf(); sp != nil && ia.Args[0].Op == "call" && sp.Aux == "strings.SplitN" {
 			i, ok1 := ia.Args[1].ConstInt()
 			n, ok2 := sp.Args[2].ConstInt()
